@@ -316,6 +316,7 @@ def run_to_completion(state: State, external_event: Union[dict, Event]) -> State
                 heads_matching: List[FlowHead] = []
                 heads_not_matching: List[FlowHead] = []
                 heads_failing: List[FlowHead] = []
+                match_error_events: Dict[str, Event] = {}
 
                 # Iterate over all potential head candidates and check if we have an event match
                 for flow_state_uid, head_uid in head_candidates:
@@ -323,9 +324,27 @@ def run_to_completion(state: State, external_event: Union[dict, Event]) -> State
                     head = flow_state.heads[head_uid]
                     element = get_element_from_head(state, head)
                     if element is not None and is_match_op_element(element):
-                        matching_score = _compute_event_matching_score(
-                            state, flow_state, head, event
-                        )
+                        try:
+                            matching_score = _compute_event_matching_score(
+                                state, flow_state, head, event
+                            )
+                        except Exception as e:
+                            # A runtime error in the match statement of a flow must only
+                            # fail that flow, the event is still processed by all the others
+                            log.warning(
+                                "Flow '%s' failed to match event due to Colang runtime exception: %s",
+                                flow_state.flow_id,
+                                e,
+                                exc_info=True,
+                            )
+                            match_error_events[head.uid] = Event(
+                                name="ColangError",
+                                arguments={
+                                    "type": str(type(e).__name__),
+                                    "error": str(e),
+                                },
+                            )
+                            matching_score = -1.0
 
                         if matching_score > 0.0:
                             # Successful event match
@@ -392,6 +411,11 @@ def run_to_completion(state: State, external_event: Union[dict, Event]) -> State
                     else:
                         flow_state = get_flow_state_from_head(state, head)
                         _abort_flow(state, flow_state, [])
+                    if head.uid in match_error_events:
+                        # The error is processed before the failed flow is restarted
+                        _push_left_internal_event(
+                            state, match_error_events[head.uid]
+                        )
 
                 # Advance front of all matching heads to actionable or match statements
                 for new_head in _advance_head_front(state, heads_matching):
